@@ -204,11 +204,8 @@ func (r *DynamicHostResolver) doResolve(hostname string) ([]string, error) {
 
 	result := make([]string, 0)
 	for _, ip := range ips {
-		s := ip.String()
-		if strings.Contains(s, ":") {
-			s = fmt.Sprintf("[%s]", s)
-		}
-		result = append(result, s)
+		// the plain address: who builds a host:port of it puts an IPv6 address into brackets
+		result = append(result, ip.String())
 	}
 	return result, nil
 }
